@@ -51,9 +51,16 @@ RULE = ("random DAGs on 1..5 data columns (plus sometimes a column outside the m
         "builds its tensor through float32 (open finding torch-backend-float32-construction of C03), so torch cases "
         "are compared at 1e-5 relative and get no weights outside the float32 range; torch with n_jobs > 1 uses joblib's "
         "thread backend only (process workers do not inherit pgmpy's backend setting and return numpy CPDs that the "
-        "torch-mode parent cannot copy: TypeError, reported); variable names are strings "
-        "(integer / tuple / mixed names cannot be sorted or are level numbers for pandas unstack), so 'names that do "
-        "not sort against each other' cannot occur; the network handed to fit_update must validate, so CPDs that "
+        "torch-mode parent cannot copy: TypeError, reported); variable names are strings or -- in the fit / fit_update / "
+        "estimate_cpd / state_counts streams -- equal-length tuples (name, slice) / (int, int) whose natural order "
+        "differs from the order of their string forms, in MultiIndex columns; integer and float names are level "
+        "numbers for pandas unstack (state_counts raises), ragged tuples and frozensets cannot label DataFrame "
+        "columns, EM needs string names (get_value keywords), and names that do not sort against each other make "
+        "sorted(parents) raise, so those cannot occur; the labels and dict keys handed to pgmpy are EQUAL but not "
+        "IDENTICAL to the names stored in the graph; BaseEstimator.state_counts gets its parents as list / tuple / "
+        "one-shot generator / dict view / pandas Index; 9-12 node chains and trees, row counts 9 / 17 / 33, a "
+        "variable with 257-300 states; existing CPDs and EM init_cpds typed with two decimals (column sums 0.99 / "
+        "1.00 / 1.01); the network handed to fit_update must validate, so CPDs that "
         "list one variable's states in different orders are outside the domain; an empty data frame declares no "
         "states and is outside the domain; max_iter=0 is outside the domain (probed and tagged only).  A case is "
         "non-trivial when some node has >=1 parent and >=2 states; distinct = distinct canonical input")
@@ -84,10 +91,41 @@ def dy(rng, lo=0, hi=16, den=4):
     return [rng.randint(lo, hi), den]
 
 
-def gen_names(rng, n):
-    # string names only: with integer column names pandas' Series.unstack(parents) takes the parents for level
-    # NUMBERS, so pgmpy's state_counts fails for any node with parents (environment limit, see ASSUMPTIONS)
+def gen_names(rng, n, tuples=True):
+    """string names, or (fit / fit_update / estimate_cpd / state_counts streams only) equal-length tuple names
+    (name, slice) / (int, int) as in unrolled temporal models, whose natural order is NOT the order of their
+    string forms: ('X', 9) < ('X', 10) but "('X', 10)" < "('X', 9)".
+    Integer and float names: pandas' Series.unstack(parents) takes them for level numbers / fails, so pgmpy's
+    state_counts raises for any node with parents; ragged tuples and frozensets are not usable as DataFrame
+    column labels; EM calls get_value(**{name: ...}) and needs string names (environment limits, see RULE)"""
+    if tuples and n <= 12 and rng.random() < 0.18:
+        slices = [1, 2, 9, 10, 11, 99, 100]
+        if rng.random() < 0.7:
+            pool = [(a, t) for a in ["X", "Y", "b"] for t in slices]
+        else:
+            pool = [(a, t) for a in [1, 2, 10] for t in slices]
+        return rng.sample(pool, n)
     return rng.sample(STR_POOL, n)
+
+
+def fresh(name):
+    """an EQUAL but not IDENTICAL name object (class N): the frame's column labels and the dict keys handed to
+    pgmpy are never the very objects stored in the graph"""
+    if isinstance(name, tuple):
+        return tuple(fresh(x) for x in list(name))
+    if isinstance(name, str):
+        return "".join(list(name)) if len(name) > 1 else (name + "_")[:1]
+    return name
+
+
+def fix_names(case):
+    """JSON turns tuple names into lists"""
+    def tup(x):
+        return tuple(tup(y) for y in x) if isinstance(x, list) else x
+    if any(isinstance(x, list) for x in case["names"]):
+        case = dict(case)
+        case["names"] = [tup(x) for x in case["names"]]
+    return case
 
 
 def gen_col(rng, card, declare_p=0.5, extra_p=0.5, force_declare=False):
@@ -209,7 +247,7 @@ def gen_fit(rng, tier):
     nodes, edges = common.rand_dag(rng, n)
     cards = [rng.choice([1, 2, 2, 3, 3, 4]) for _ in names]
     cols = [gen_col(rng, c) for c in cards]
-    nrows = rng.choice([1, 2, 3, 5, 8, 12, 20])
+    nrows = rng.choice([1, 2, 3, 5, 8, 9, 12, 17, 20, 33])
     rows = gen_rows(rng, cols, nrows)
     weights, wmode = None, None
     if rng.random() < 0.45:
@@ -324,8 +362,20 @@ def rand_col(rng, r, zeros):
     return [Fraction(x, den) for x in parts]
 
 
-def rand_cpd_table(rng, r, q, zeros=True):
-    cols = [rand_col(rng, r, zeros) for _ in range(q)]
+def decimal_col(rng, r):
+    """a column typed with two decimals: sums to 1 within check_model's 0.01 tolerance but not exactly"""
+    parts = [1] * r
+    for _ in range(100 - r):
+        parts[rng.randrange(r)] += 1
+    off = rng.choice([-1, 0, 0, 1]) if r > 1 else 0      # 0.99 / 1.00 / 1.01
+    k_ = rng.randrange(r)
+    if parts[k_] + off >= 1:
+        parts[k_] += off
+    return [Fraction(x, 100) for x in parts]
+
+
+def rand_cpd_table(rng, r, q, zeros=True, decimals=False):
+    cols = [decimal_col(rng, r) if decimals else rand_col(rng, r, zeros) for _ in range(q)]
     return [[[cols[j][x].numerator, cols[j][x].denominator] for j in range(q)] for x in range(r)]
 
 
@@ -348,20 +398,22 @@ def gen_fit_update(rng, tier):
             "index": rng.choice(INDEX_MODES), "backend": "torch" if rng.random() < 0.08 else "numpy",
             "mseed": rng.randint(0, 10**9)}
     prev = {}
+    dec = rng.random() < 0.25     # existing CPDs typed with two decimals (valid, not exactly normalised)
     for i in nodes:
         ps = parents_of(case, i)
         rng.shuffle(ps)
         q = 1
         for u in ps:
             q *= len(cols[u]["declared"])
-        prev[str(i)] = {"parents": ps, "table": rand_cpd_table(rng, len(cols[i]["declared"]), q)}
+        prev[str(i)] = {"parents": ps, "table": rand_cpd_table(rng, len(cols[i]["declared"]), q, decimals=dec)}
     case["prev"] = prev
+    case["decimals"] = dec
     return case
 
 
 def gen_em(rng, tier, latent):
     n = rng.randint(2, 4)
-    names = gen_names(rng, n + (1 if latent else 0))
+    names = gen_names(rng, n + (1 if latent else 0), tuples=False)
     nodes, edges = common.rand_dag(rng, n, p=rng.choice([0.35, 0.6]))
     cards = [rng.choice([1, 2, 2, 3]) for _ in range(n)]
     cols = [gen_col(rng, c, declare_p=0.3, extra_p=0.3) for c in cards]
@@ -400,6 +452,8 @@ def gen_em(rng, tier, latent):
         need = set()
         case["mode"] = "init"
     extra_init = set(v for v in range(n) if rng.random() < 0.4)
+    dec = rng.random() < 0.2
+    case["decimals"] = dec
     init = {}
     if case["mode"] == "partial":
         # init_cpds for only some of the latent-involved nodes; the rest is drawn by pgmpy from `seed`
@@ -411,7 +465,7 @@ def gen_em(rng, tier, latent):
             q = 1
             for u in ps:
                 q *= cardof[u]
-            init[str(i)] = {"parents": ps, "table": rand_cpd_table(rng, cardof[i], q, zeros=False)}
+            init[str(i)] = {"parents": ps, "table": rand_cpd_table(rng, cardof[i], q, zeros=False, decimals=dec)}
     case["init"] = init
     return case
 
@@ -485,7 +539,7 @@ def gen_session(rng, tier):
     """ONE partial state_names dict (some variables declared, the others left to the data) reused by 2-3
     successive fits on data sets (folds) whose OBSERVED states of the undeclared variables differ"""
     n = rng.randint(2, 4)
-    names = gen_names(rng, n)
+    names = gen_names(rng, n, tuples=False)
     nodes, edges = common.rand_dag(rng, n, p=rng.choice([0.5, 0.7, 0.9]))
     flags = [rng.random() < 0.45 for _ in range(n)]
     if all(flags):
@@ -667,6 +721,45 @@ def gen_wide(rng, tier):
     return case
 
 
+def gen_chain(rng, tier):
+    """9-12 nodes in a chain or a random tree (mid-sized: more nodes than any batch / loop threshold of 8)"""
+    n = rng.choice([9, 10, 11, 12])
+    names = rng.sample(STR_POOL, n)
+    order = list(range(n))
+    rng.shuffle(order)
+    edges = []
+    for k_ in range(1, n):
+        edges.append([order[k_ - 1] if rng.random() < 0.6 else order[rng.randrange(k_)], order[k_]])
+    rng.shuffle(edges)
+    cols = [gen_col(rng, rng.choice([2, 2, 3]), declare_p=0.3, extra_p=0.2) for _ in range(n)]
+    rows = gen_rows(rng, cols, rng.choice([9, 17, 33]))
+    nodes = list(range(n))
+    rng.shuffle(nodes)
+    colorder = list(range(n))
+    rng.shuffle(colorder)
+    return {"kind": "fit", "names": names, "nodes": nodes, "edges": edges, "cols": cols, "rows": rows, "weights": None,
+            "wmode": None, "colorder": colorder, "api": rng.choice(["bnfit", "dagfit", "est"]), "n_jobs": rng.choice([1, 1, 2]),
+            "loky": False, "mseed": rng.randint(0, 10**9), "index": rng.choice(INDEX_MODES), "backend": "numpy",
+            "est": rng.choice(["mle", "k2", "bdeu"]), "ess": [5, 1], "nometa": True, "chain": True}
+
+
+def gen_manystates(rng, tier):
+    """a variable with more than 256 states (257..300 integer codes), as a root, a child and a parent"""
+    big = rng.choice([257, 260, 300])
+    names = rng.sample(STR_POOL, 3)
+    base = rng.choice([0, 1000, 2**24])
+    cols = [{"type": "int", "univ": [base + 3 * k_ for k_ in range(big)], "declared": None if rng.random() < 0.5 else list(range(big)),
+             "used": big, "ordered": False},
+            gen_col(rng, 2, declare_p=0.5, extra_p=0.0), gen_col(rng, 2, declare_p=0.5, extra_p=0.0)]
+    edges = rng.choice([[[0, 1]], [[1, 0]], [[0, 1], [2, 0]], []])
+    rows = [[k_ % big if k_ < big else rng.randrange(big), rng.randrange(2), rng.randrange(2)] for k_ in range(big + 20)]
+    rng.shuffle(rows)
+    return {"kind": "fit", "names": names, "nodes": [0, 1, 2], "edges": [list(e) for e in edges], "cols": cols, "rows": rows,
+            "weights": None, "wmode": None, "colorder": [2, 0, 1], "api": rng.choice(["bnfit", "est"]), "n_jobs": 1, "loky": False,
+            "mseed": rng.randint(0, 10**9), "index": "range", "backend": "numpy", "est": rng.choice(["mle", "k2"]),
+            "nometa": True, "manystates": True}
+
+
 def cases(tier, seed):
     rng = random.Random(seed)
     k = 1 if tier == "quick" else 10
@@ -691,6 +784,10 @@ def cases(tier, seed):
         out.append(gen_session(rng, tier))
     for _ in range(4 * k):
         out.append(gen_emdeep(rng, tier))
+    for _ in range(6 * k):
+        out.append(gen_chain(rng, tier))
+    for _ in range(2 * k):
+        out.append(gen_manystates(rng, tier))
     return out
 
 
@@ -770,7 +867,7 @@ def make_frame(case, rows=None, weights="case", colorder=None, drop=None):
             vals.append(raw(col, next(it)[i]) if k else None)
         junk = {"int": 97, "float": 1e9, "bool": True, "cat": "__junk", "obj": "__junk"}[col["type"]]
         vals = [junk if v is None else v for v in vals]
-        nm = case["names"][i]
+        nm = fresh(case["names"][i])
         if col["type"] == "int":
             data[nm] = pd.Series(vals, dtype="int64")
         elif col["type"] == "float":
@@ -782,7 +879,9 @@ def make_frame(case, rows=None, weights="case", colorder=None, drop=None):
             data[nm] = pd.Series(pd.Categorical(vals, categories=cats, ordered=bool(col.get("ordered"))))
         else:
             data[nm] = pd.Series(vals, dtype=object)
-    df = pd.DataFrame(data, columns=[case["names"][i] for i in use])
+    # dict insertion order = column order; with tuple names this yields MultiIndex columns, the only form in which
+    # pandas/pgmpy can select a tuple-named column (a flat Index of tuples is read as a list of labels)
+    df = pd.DataFrame(data)
     n = len(df)
     if mode == "filtered":
         df = df[pd.Series(keep)]
@@ -849,7 +948,7 @@ def state_names_kw(case):
     sn = {}
     for i, col in enumerate(case["cols"]):
         if col["declared"] is not None:
-            sn[case["names"][i]] = [raw(col, s) for s in col["declared"]]
+            sn[fresh(case["names"][i])] = [raw(col, s) for s in col["declared"]]
     return sn
 
 
@@ -1562,6 +1661,8 @@ def run_em(case, drv):
         for i in fixed:
             g0[names[i]] = mm.estimate_cpd(names[i])
     prev_ll = loglik(case, st, g0)
+    if case.get("decimals"):
+        prev_ll = None      # init tables typed with two decimals are not exactly normalised: no baseline likelihood
     if case.get("deep"):
         below = sum(1 for p_ in min_row_joint(case, st, g0) if p_ < 1e-10)
         tags.append("deep: distinct rows whose every completion has joint < 1e-10: %s" % ("all" if below == len(set(map(tuple, rows))) else ("some" if below else "none")))
@@ -1615,7 +1716,8 @@ def run_em(case, drv):
         got = pg_em(k)
         ll = loglik(case, st, got)
         # TEST (not a theorem): observed-data likelihood never decreases from one iteration to the next
-        if not (ll >= prev_ll - 1e-8 * (1 + abs(prev_ll))):
+        # (under torch the CPD entries are float32-rounded, see RULE: 1e-5 there)
+        if prev_ll is not None and not (ll >= prev_ll - max(1e-8, TOL_FLOOR[0]) * (1 + abs(prev_ll))):
             return bad("impl!=spec:em-likelihood-decreased(test)", {"iteration": k, "before": prev_ll, "after": ll})
         prev_ll = ll
         kk = min(k, stopped) if stopped else k
@@ -1872,8 +1974,20 @@ def run_estsession(case, drv):
                   "scalar": {"prior_type": "dirichlet", "pseudo_counts": (stp.get("c") or [1, 1])[0] / (stp.get("c") or [1, 1])[1]}}[stp["prior"]]
         if call == "state_counts":
             ps_ids, named = decode_named(drv.call("c06_counts", [cards, cols, wrows, vid[i], [vid[u] for u in parents_of(case, i)]]))
-            sc = e.state_counts(names[i], weighted=stp["weighted"])
             ps = [inv[p_] for p_ in ps_ids]
+            form = (k + case.get("mseed", 0)) % 5
+            if form == 0 or not ps:
+                sc = e.state_counts(names[i], weighted=stp["weighted"])
+            else:
+                # the documented base-class form: parents as any iterable (tuple, one-shot generator, pandas Index
+                # of labels, dict view), here in the estimator's own (sorted) order
+                import pandas as pd
+                from pgmpy.estimators import BaseEstimator
+                plist = [fresh(names[u]) for u in ps]
+                arg = {1: tuple(plist), 2: (x_ for x_ in plist), 3: dict.fromkeys(plist).keys(),
+                       4: pd.Index(plist, tupleize_cols=False) if not isinstance(plist[0], tuple) else iter(plist)}[form]
+                sc = BaseEstimator.state_counts(e, names[i], parents=arg, weighted=stp["weighted"])
+                tags.append("state_counts parents as %s" % type(arg).__name__)
             if list(sc.index) != [raw(_col(case, i), s_) for s_ in st[i]]:
                 return bad("impl!=model:state_counts-index", {"node": str(names[i]), "impl": list(map(str, sc.index))})
             if ps and list(sc.columns.names) != [names[u] for u in ps]:
@@ -1920,6 +2034,7 @@ def run_estsession(case, drv):
 
 def run_case(case, drv):
     """backend switch (numpy / torch float64 on cpu) and the argument-purity verdict around the per-kind runners"""
+    case = fix_names(case)
     torch_on = case.get("backend") == "torch"
     if torch_on:
         import torch
